@@ -42,6 +42,18 @@ let string_of_z (x : z) : string =
 let zi = z_of_int
 let zs = z_of_string
 
+(* the harness' salted hasher: hash = mix64(plan(id) ^ salt) for salt <> 0 (Int64 wraps like u64) *)
+let mix64 (x : int64) : int64 =
+  let open Int64 in
+  let x = add x 0x9E3779B97F4A7C15L in
+  let x = mul (logxor x (shift_right_logical x 30)) 0xBF58476D1CE4E5B9L in
+  let x = mul (logxor x (shift_right_logical x 27)) 0x94D049BB133111EBL in
+  logxor x (shift_right_logical x 31)
+let int64_of_z (x : z) : int64 = Int64.of_string ("0u" ^ string_of_z x)
+let z_of_int64 (x : int64) : z = z_of_string (Printf.sprintf "%Lu" x)
+let salted (salt : string) (h : z) : z =
+  if salt = "0" || salt = "" then h else z_of_int64 (mix64 (Int64.logxor (int64_of_z h) (Int64.of_string ("0u" ^ salt))))
+
 (* ---------- parsing ---------- *)
 let words s = List.filter (fun x -> x <> "") (String.split_on_char ' ' s)
 let strip_prefix p s =
@@ -257,10 +269,81 @@ let arith_mode (file : string) =
   Printf.printf "STATS queries=%d mismatches=%d\n" !total !bad;
   Printf.printf "OPS %s\n" (String.concat " " (Hashtbl.fold (fun k v acc -> Printf.sprintf "%s=%d" k v :: acc) kinds []))
 
+
+(* ---------- HashTable traces ---------- *)
+let parse_pred (ws : string list) (i : int) : tpred * int =
+  match List.nth ws i with
+  | "id" -> (PId (zs (List.nth ws (i + 1))), i + 2)
+  | "valmod" -> (PValMod (zs (List.nth ws (i + 1)), zs (List.nth ws (i + 2))), i + 3)
+  | x -> failwith ("pred " ^ x)
+
+let parse_top (ws : string list) : tbl_op =
+  let z i = zs (List.nth ws i) in
+  let n i = nat_of_int (int_of_string (List.nth ws i)) in
+  let rest i = List.filteri (fun j _ -> j >= i) ws in
+  match List.hd ws with
+  | "twithcap" -> TWithCapacity (z 1)
+  | "tfind" -> let (p, _) = parse_pred ws 2 in TFind (z 1, p)
+  | "tfindmut" -> let (p, j) = parse_pred ws 2 in TFindMut (z 1, p, z j)
+  | "tfindentryremove" -> let (p, _) = parse_pred ws 2 in TFindEntryRemove (z 1, p)
+  | "tremovereinsert" -> let (p, j) = parse_pred ws 2 in TRemoveReinsert (z 1, p, z j, z (j + 1))
+  | "tentryinsert" -> TEntryInsert (z 1, z 2, z 3)
+  | "tentryorinsert" -> TEntryOrInsert (z 1, z 2, z 3)
+  | "tentrydrop" -> TEntryDrop (z 1)
+  | "tinsertunique" -> TInsertUnique (z 1, z 2, z 3)
+  | "tretain" -> TRetain (List.map zs (rest 2), z 1)
+  | "textractif" -> TExtractIf (List.map zs (rest 2), n 1)
+  | "tdrain" -> TDrain (n 1)
+  | "tclear" -> TClear
+  | "treserve" -> TReserve (z 1)
+  | "ttryreserve" -> TTryReserve (z 1)
+  | "tshrinkto" -> TShrinkTo (z 1)
+  | "tshrinktofit" -> TShrinkToFit
+  | "tgetmanymut" ->
+    let add = z 1 and cnt = int_of_string (List.nth ws 2) in
+    let rec go k i acc = if k = 0 then List.rev acc else
+        let hk = z i in let (p, j) = parse_pred ws (i + 1) in go (k - 1) j ((hk, p) :: acc) in
+    TGetManyMut (go cnt 3 [], add)
+  | "titerhash" -> TIterHash (z 1)
+  | "titer" -> TIter
+  | "tlen" -> TLen
+  | "tcapacity" -> TCapacity
+  | "tallocsize" -> TAllocationSize
+  | "tdrop" -> TDropTable
+  | o -> failwith ("unknown table op " ^ o)
+
+let tout_text (o : tout) : string =
+  match o with
+  | TOutUnit -> "unit" | TOutNone -> "none"
+  | TOutElem e -> "elem " ^ kv_text e
+  | TOutBool b -> if b then "bool 1" else "bool 0"
+  | TOutNum n -> "num " ^ string_of_z n
+  | TOutTry TR_ok -> "try ok" | TOutTry TR_capacity_overflow -> "try overflow"
+  | TOutTry (TR_alloc_error (s, a)) -> Printf.sprintf "try allocerr %s %s" (string_of_z s) (string_of_z a)
+  | TOutList l -> "list " ^ (if l = [] then "-" else String.concat "," (List.map kv_text l))
+  | TOutOpts l -> "opts " ^ (if l = [] then "-" else String.concat "," (List.map (function Some e -> kv_text e | None -> "none") l))
+  | TOutUnwind -> "unwind" | TOutLibPanic -> "libpanic"
+
+let parse_tout (s : string) : tout option =
+  match words s with
+  | ["unit"] -> Some TOutUnit | ["none"] -> Some TOutNone
+  | ["elem"; e] -> Some (TOutElem (parse_kv3 e))
+  | ["bool"; b] -> Some (TOutBool (b = "1"))
+  | ["num"; n] -> Some (TOutNum (zs n))
+  | ["try"; "ok"] -> Some (TOutTry TR_ok) | ["try"; "overflow"] -> Some (TOutTry TR_capacity_overflow)
+  | ["try"; "allocerr"; a; b] -> Some (TOutTry (TR_alloc_error (zs a, zs b)))
+  | ["list"; "-"] -> Some (TOutList [])
+  | ["list"; l] -> Some (TOutList (List.map parse_kv3 (String.split_on_char ',' l)))
+  | ["opts"; "-"] -> Some (TOutOpts [])
+  | ["opts"; l] -> Some (TOutOpts (List.map (fun x -> if x = "none" then None else Some (parse_kv3 x)) (String.split_on_char ',' l)))
+  | "unwind" :: _ -> Some TOutUnwind
+  | "libpanic" :: "duplicate" :: _ -> Some TOutLibPanic
+  | _ -> None
+
 (* ---------- the checking loop ---------- *)
 type cfg = { mutable backend : backend; mutable gw : int; mutable tsize : z; mutable talign : z;
              mutable needs_drop : bool; mutable hashes : (string * z) list; mutable rule : string;
-             mutable eqrule : string }
+             mutable eqrule : string; mutable coll : string }
 
 let findings = ref 0
 let say fmt = Printf.ksprintf (fun s -> incr findings; print_endline s) fmt
@@ -277,7 +360,7 @@ let () =
   (try while true do lines := input_line ic :: !lines done with End_of_file -> ());
   close_in ic;
   let lines = Array.of_list (List.rev !lines) in
-  let cfg = { backend = sse2_backend; gw = 16; tsize = Z0; talign = Z0; needs_drop = true; hashes = []; rule = "mix"; eqrule = "lawful" } in
+  let cfg = { backend = sse2_backend; gw = 16; tsize = Z0; talign = Z0; needs_drop = true; hashes = []; rule = "mix"; eqrule = "lawful"; coll = "map" } in
   let script = ref "" in
   let spec : kv list ref = ref [] in
   let spec_other : kv list ref = ref [] in      (* abstract contents of the set that is not the current target *)
@@ -290,12 +373,16 @@ let () =
   let bump tbl k = Hashtbl.replace tbl k (1 + (try Hashtbl.find tbl k with Not_found -> 0)) in
   let n = Array.length lines in
   let i = ref 0 in
-  let hash_of (panic_key : z option) (k : z) : z option =
+  let cur_salt = ref "0" in
+  let hash_of_salt (salt : string) (panic_key : z option) (k : z) : z option =
     if (match panic_key with Some p -> Z.eqb p k | None -> false) then None else
-    match cfg.rule with
-    | "zero" -> Some Z0
-    | "max" -> Some (zs "18446744073709551615")
-    | _ -> (match List.assoc_opt (string_of_z k) cfg.hashes with Some h -> Some h | None -> None) in
+    let base = (match cfg.rule with
+      | "zero" -> Some Z0
+      | "max" -> Some (zs "18446744073709551615")
+      | _ -> List.assoc_opt (string_of_z k) cfg.hashes) in
+    (match base with Some h -> Some (salted salt h) | None -> None) in
+  let hash_of (panic_key : z option) (k : z) : z option = hash_of_salt !cur_salt panic_key k in
+  let salt_of_line s = (try List.assoc "salt" (kvmap (words s)) with Not_found -> "0") in
   while !i < n do
     let l = lines.(!i) in
     (match strip_prefix "SCRIPT " l with
@@ -305,6 +392,104 @@ let () =
      | Some t -> let t = String.trim t in
        if t <> !tgt then begin let x = !spec in spec := !spec_other; spec_other := x; tgt := t end
      | None -> ());
+    (match strip_prefix "STEPC " l with
+     | Some s when !i + 9 < n ->
+       let ws = words s in
+       let stepno = List.hd ws and opname = List.nth ws 1 in
+       let get p k = (match strip_prefix p lines.(!i + k) with Some a -> a | None -> "") in
+       let arm = get "ARM " 1 and pre_s = get "PRE " 2 and preo_s = get "PREO " 3 and ret_s = get "RET " 4 in
+       let ev_s = String.trim (get "EV" 5) and post_s = get "POST " 6 and posto_s = get "POSTO " 7 and chk_s = get "CHK " 9 in
+       i := !i + 9;
+       incr steps;
+       bump opcount opname;
+       let where = Printf.sprintf "script=%s step=%s op=[%s]" !script stepno opname in
+       (try
+         let pre = parse_dump pre_s and preo = parse_dump preo_s and post = parse_dump post_s and posto = parse_dump posto_s in
+         let tpre = table_of_dump pre and tpreo = table_of_dump preo and tpost = table_of_dump post and tposto = table_of_dump posto in
+         let osalt_pre = salt_of_line preo_s and osalt_post = salt_of_line posto_s in
+         ignore osalt_pre;
+         cur_salt := salt_of_line post_s;
+         if chk_s <> "ok" then say "H-FAIL %s: harness check: %s" where chk_s;
+         let hf = hash_of None in
+         let hasher (e : kv) = hf e.k_id in
+         let hasher_o (e : kv) = hash_of_salt osalt_post None e.k_id in
+         let unwound = (match strip_prefix "unwind" ret_s with Some _ -> true | None -> false) in
+         (* level B on both maps (the other one only when it uses the unsalted plan) *)
+         incr b_checked;
+         if not (safe_wf_check cfg.backend tpost) then say "B-FAIL %s: post-state violates SafeWF (counters/mirror/shape): %s" where (dump_text post)
+         else if not (hash_wf_check cfg.backend hasher tpost) then say "B-FAIL %s: post-state violates Tags/Reach for its hashes (lookups will miss stored elements): %s" where (dump_text post);
+         if not (safe_wf_check cfg.backend tposto) then say "B-FAIL %s: clone/other map violates SafeWF: %s" where (dump_text posto)
+         else if not (hash_wf_check cfg.backend hasher_o tposto) then say "B-FAIL %s: clone/other map violates Tags/Reach: %s" where (dump_text posto);
+         let evtext evs = ev_text evs in
+         let ie = (if ev_s = "" then "-" else ev_s) in
+         let cmp_table what (t' : kv table) (d : dump) = if table_text t' <> dump_text d then say "C-MISMATCH %s: %s: model [%s] impl [%s]" where what (table_text t') (dump_text d) in
+         let same_kv l1 l2 = sorted_kvs l1 = sorted_kvs l2 in
+         (match opname with
+          | "o_clone" ->
+            if arm = "-" then begin
+              incr c_checked;
+              (match clone_table cfg.backend cfg.tsize cfg.talign (fun e -> Some e) tpre with
+               | Fail e -> say "C-MISMATCH %s: model stops with %s" where (err_text e)
+               | Ok (Some t', evs) ->
+                 cmp_table "clone" t' posto;
+                 (* the old `other` is dropped after the clone was built: its events follow *)
+                 let me = evtext evs in
+                 if not (String.length ie >= String.length me && String.sub ie 0 (String.length me) = me) && me <> "-" then
+                   say "C-MISMATCH %s: events: model prefix [%s] impl [%s]" where me ie
+               | Ok (None, _) -> say "C-MISMATCH %s: model clone unwound" where)
+            end else incr c_skipped;
+            incr a_checked;
+            if dump_text pre <> dump_text post then say "A-FAIL %s: clone() changed the source" where;
+            if not unwound then begin
+              if not (same_kv (occupants tposto) (occupants tpre)) then
+                say "A-FAIL %s: the clone does not hold the source's elements: clone=[%s] source=[%s]" where
+                  (String.concat "," (sorted_kvs (occupants tposto))) (String.concat "," (sorted_kvs (occupants tpre)));
+              spec_other := !spec
+            end else spec_other := occupants tposto
+          | "o_clone_from" ->
+            if arm = "-" then begin
+              incr c_checked;
+              (match clone_from cfg.backend cfg.tsize cfg.talign cfg.needs_drop (fun _ -> true) (fun e -> Some e) tpre tpreo with
+               | Fail e -> say "C-MISMATCH %s: model stops with %s" where (err_text e)
+               | Ok ((t', evs), _) ->
+                 cmp_table "clone_from target" t' post;
+                 if evtext evs <> ie then say "C-MISMATCH %s: events: model [%s] impl [%s]" where (evtext evs) ie)
+            end else incr c_skipped;
+            incr a_checked;
+            if dump_text preo <> dump_text posto then say "A-FAIL %s: clone_from changed the source" where;
+            if not unwound then begin
+              if not (same_kv (occupants tpost) (occupants tpreo)) then
+                say "A-FAIL %s: after clone_from the target does not equal the source: target=[%s] source=[%s]" where
+                  (String.concat "," (sorted_kvs (occupants tpost))) (String.concat "," (sorted_kvs (occupants tpreo)));
+              spec := occupants tpost
+            end else begin
+              (* C04: after unwinding, whatever is stored must come from the old target or the source *)
+              let pool = occupants tpre @ occupants tpreo in
+              List.iter (fun (e : kv) -> if not (List.exists (fun (x : kv) -> kv_text x = kv_text e) pool) then
+                            say "A-FAIL %s: element %s appeared from nowhere after the unwound clone_from" where (kv_text e)) (occupants tpost);
+              spec := occupants tpost
+            end
+          | "o_swap" ->
+            let x = !spec in spec := !spec_other; spec_other := x
+          | "o_salt" -> spec_other := []
+          | "o_eq" ->
+            incr c_checked; incr a_checked;
+            let mb = map_eq (occupants tpre) (occupants tpreo) in
+            let expect = if mb then "bool 1" else "bool 0" in
+            if ret_s <> expect then say "C-MISMATCH %s: model [%s] impl [%s]" where expect ret_s;
+            (* mathematical equality from the abstract contents *)
+            let ka l = List.sort compare (List.map (fun (e : kv) -> (string_of_z e.k_id, string_of_z e.v_val)) l) in
+            let math = (ka !spec = ka !spec_other) in
+            if ret_s <> (if math then "bool 1" else "bool 0") then say "A-FAIL %s: == returned [%s] but the maps %s hold the same keys with equal values" where ret_s (if math then "do" else "do not")
+          | o -> say "D-ERROR %s: unknown clone-family op %s" where o);
+         if not (Z.eqb tpost.items (zi (List.length (occupants tpost)))) then
+           say "A-FAIL %s: len()=%s but %d elements are stored" where (string_of_z tpost.items) (List.length (occupants tpost));
+         bump branch ("clone_family_" ^ (if int_of_nat tpre.mask = int_of_nat tpreo.mask then "same_buckets" else if int_of_nat tpre.mask < int_of_nat tpreo.mask then "target_smaller" else "target_larger"));
+         Hashtbl.replace distinct (opname ^ "|" ^ pre_s ^ "|" ^ preo_s ^ "|" ^ arm) ()
+       with
+       | Failure m -> say "D-ERROR %s: driver failure %s" where m
+       | Not_found -> say "D-ERROR %s: driver parse failure" where)
+     | _ -> ());
     (match strip_prefix "STEP2 " l with
      | Some s when !i + 8 < n ->
        (* binary set operation: A op B *)
@@ -413,6 +598,7 @@ let () =
      | Some s ->
        let m = kvmap (words s) in
        cfg.gw <- int_of_string (List.assoc "gw" m);
+       cfg.coll <- List.assoc "coll" m;
        cfg.backend <- (if cfg.gw = 16 then sse2_backend else generic_backend);
        cfg.tsize <- zs (List.assoc "tsize" m); cfg.talign <- zs (List.assoc "talign" m);
        cfg.needs_drop <- (List.assoc "needs_drop" m = "1")
@@ -425,6 +611,77 @@ let () =
          | _ -> ())
      | None -> ());
     (match strip_prefix "STEP " l with
+     | Some s when !i + 6 < n && cfg.coll = "table" ->
+       let ws = words s in
+       let stepno = List.hd ws and opws = List.tl ws in
+       let get p k = (match strip_prefix p lines.(!i + k) with Some a -> a | None -> "") in
+       let arm = get "ARM " 1 and pre_s = get "PRE " 2 and ret_s = get "RET " 3 in
+       let ev_s = String.trim (get "EV" 4) and post_s = get "POST " 5 and chk_s = get "CHK " 6 in
+       i := !i + 6;
+       incr steps;
+       let where = Printf.sprintf "script=%s step=%s op=[%s]" !script stepno (String.concat " " opws) in
+       (try
+         let op = parse_top opws in
+         bump opcount (List.hd opws);
+         let pre = parse_dump pre_s and post = parse_dump post_s in
+         let tpre = table_of_dump pre and tpost = table_of_dump post in
+         if chk_s <> "ok" then say "H-FAIL %s: harness check: %s" where chk_s;
+         List.iter (fun fl -> if List.mem fl post.d_flags then say "H-FAIL %s: %s" where fl) ["MISALIGNED_CTRL"; "MISALIGNED_SLOT"; "SLOT_OUT_OF_BLOCK"];
+         let armws = List.map words (String.split_on_char ';' arm) in
+         let panic_key = List.fold_left (fun acc w -> match w with ["hashpanic_key"; k] -> Some (zs k) | _ -> acc) None armws in
+         let refuse = List.exists (fun w -> w = ["refuse_nth"; "0"]) armws in
+         let other_arm = List.exists (fun w -> match w with [] | ["-"] | ["hashpanic_key"; _] | ["refuse_nth"; "0"] -> false | _ -> true) armws in
+         let lawful = cfg.rule <> "calldep" && cfg.eqrule = "lawful" in
+         let zst = Z.eqb cfg.tsize Z0 in
+         let hf = hash_of None in
+         let hasher (e : kv) = hf e.k_id in
+         let ret = parse_tout ret_s in
+         let is_libpanic = (match strip_prefix "libpanic" ret_s with Some _ -> ret = None | None -> false) in
+         if is_libpanic then say "A-FAIL %s: the library panicked: %s" where ret_s;
+         if do_b then begin
+           incr b_checked;
+           if not (safe_wf_check cfg.backend tpost) then say "B-FAIL %s: post-state violates SafeWF (counters/mirror/shape): %s" where (dump_text post)
+           else if lawful && not (hash_wf_check cfg.backend hasher tpost) then say "B-FAIL %s: post-state violates Tags/Reach for its hashes: %s" where (dump_text post)
+         end;
+         if do_c && lawful && not other_arm && not is_libpanic then begin
+           incr c_checked;
+           (match table_step cfg.backend cfg.tsize cfg.talign cfg.needs_drop rehash_guard_unconditional (hash_of panic_key) refuse tpre op with
+            | Fail e -> say "C-MISMATCH %s: model stops with %s but the implementation returned [%s]; pre=%s" where (err_text e) ret_s (dump_text pre)
+            | Ok ((t', o), evs) ->
+              (* zero-sized elements: every bucket address coincides, so get_many_mut's duplicate check
+                 fires on distinct entries (known finding F2); the model has no addresses *)
+              let zst_dup = zst && (match op with TGetManyMut _ -> true | _ -> false) in
+              if not zst_dup then begin
+                let mt = table_text t' and it = dump_text post in
+                if mt <> it then say "C-MISMATCH %s: post-state: model [%s] impl [%s] pre [%s]" where mt it (dump_text pre);
+                let mo = tout_text o and io = (match ret with Some r -> tout_text r | None -> ret_s) in
+                if mo <> io then say "C-MISMATCH %s: return value: model [%s] impl [%s]" where mo io;
+                let me = ev_text evs and ie = (if ev_s = "" then "-" else ev_s) in
+                if me <> ie then say "C-MISMATCH %s: events: model [%s] impl [%s]" where me ie
+              end;
+              if List.exists (fun b -> Z.eqb b (zi 128)) t'.ctrl then bump branch "tombstones_present";
+              if Z.eqb tpre.growth_left Z0 then bump branch "pre_growth_left_0";
+              (match op with TGetManyMut (r, _) when List.length r >= 2 -> bump branch "get_many_mut_2plus" | TRemoveReinsert _ -> bump branch "remove_reinsert" | TIterHash _ -> bump branch "iter_hash" | _ -> ()))
+         end else incr c_skipped;
+         if do_a && lawful && !spec_valid then begin
+           incr a_checked;
+           let contents = occupants tpost in
+           (match ret with
+            | Some TOutUnwind -> spec := contents
+            | Some r ->
+              if not (tspec_accepts hf !spec op r contents) then
+                say "A-FAIL %s: the reference multiset rejects result [%s] / contents [%s] (reference contents [%s])" where ret_s
+                  (String.concat "," (sorted_kvs contents)) (String.concat "," (sorted_kvs !spec));
+              spec := contents
+            | None -> if not is_libpanic then say "A-FAIL %s: unparsable result [%s]" where ret_s; spec := contents);
+           if not (Z.eqb tpost.items (zi (List.length contents))) then
+             say "A-FAIL %s: len()=%s but %d elements are stored" where (string_of_z tpost.items) (List.length contents)
+         end;
+         Hashtbl.replace distinct (String.concat " " opws ^ "|" ^ pre_s ^ "|" ^ arm) ()
+       with
+       | Stack_overflow -> say "C-MISMATCH %s: model evaluation overflowed the stack" where
+       | Failure m -> say "D-ERROR %s: driver failure %s" where m
+       | Not_found -> say "D-ERROR %s: driver parse failure" where)
      | Some s when !i + 6 < n ->
        let ws = words s in
        let stepno = List.hd ws in
@@ -437,6 +694,7 @@ let () =
        let chk_s = (match strip_prefix "CHK " lines.(!i + 6) with Some a -> a | None -> "ok") in
        i := !i + 6;
        incr steps;
+       cur_salt := salt_of_line pre_s;
        let where = Printf.sprintf "script=%s step=%s op=[%s]" !script stepno (String.concat " " opws) in
        (try
          let op = parse_op opws in
